@@ -394,3 +394,54 @@ func dependsOnEnvState(v ssa.Value, env *types.Named, depth int) bool {
 	}
 	return false
 }
+
+// R-NO-HOST-STATE (C19): a run does not look at what earlier runs left in the host process.
+func init() {
+	register(&Rule{Name: "R-NO-HOST-STATE", Min: 1,
+		Doc: "the parser, the type library and the interpreter never call into the Go runtime's process-wide introspection (package runtime: goroutine count, memory statistics, stack dumps, …, runtime/debug, runtime/metrics) or read the process environment: such values accumulate over every program the host has executed, so a decision based on them makes a program's behaviour depend on earlier runs",
+		Run: runNoHostState})
+}
+
+func runNoHostState(p *Program, r *RuleResult) {
+	deny := map[string]bool{"runtime": true, "runtime/debug": true, "runtime/metrics": true, "runtime/pprof": true}
+	allow := map[string]bool{"runtime.Gosched": true, "runtime.KeepAlive": true}
+	denyFn := map[string]bool{"os.Getenv": true, "os.LookupEnv": true, "os.Environ": true, "os.Getpid": true}
+	n, nFn := 0, 0
+	for _, fn := range p.SrcFuncs {
+		if fn.Blocks == nil || fn.Pkg == nil {
+			continue
+		}
+		root := fn
+		for root.Parent() != nil {
+			root = root.Parent()
+		}
+		if root.Pkg == nil {
+			continue
+		}
+		switch root.Pkg.Pkg.Path() {
+		case processPkg, typesPkg, parserPkg:
+		default:
+			continue
+		}
+		nFn++
+		ord := 0
+		for _, c := range p.callsIn(fn) {
+			sc := c.Common().StaticCallee()
+			if sc == nil || sc.Pkg == nil {
+				continue
+			}
+			name := sc.Pkg.Pkg.Path() + "." + sc.Name()
+			if (deny[sc.Pkg.Pkg.Path()] && !allow[name]) || denyFn[name] {
+				n++
+				ord++
+				r.add(fnName(fn), fmt.Sprintf("host-state#%d:%s", ord, name), Violated, p.instrPos(c),
+					fmt.Sprintf("%s observes the whole host process (everything earlier programs left behind counts), so what this run does depends on the runs before it", name))
+			}
+		}
+	}
+	if nFn >= 300 {
+		r.add("parser+types+process", "no-host-wide-observation", Holds, "", fmt.Sprintf("%d functions scanned, %d calls into process-wide introspection", nFn, n))
+	} else {
+		r.add("parser+types+process", "no-host-wide-observation", Undecided, "", fmt.Sprintf("only %d functions scanned", nFn))
+	}
+}
